@@ -15,6 +15,14 @@ Space     N in {1,2,3,5,8} paths  x  ALL sequences of terminal spot values over 
           uncorrelated on samples symmetric about 1 while their covariance matrix is invertible.
           Additions beyond DESIGN section 6 (cheap, same oracle): alphabet A4 = (0.5, 1, 1.5, 2) for N <= 5 (4^N <= 1024), so
           that two controls plus an intercept do not interpolate the payoff; the LOG process representation for N <= 3.
+          Sub "mixed" (both tiers): controls on an underlying TYPE different from the product's, in both directions - product on
+          Spot with controls on LogSpot (1x: forward on log S; 2x: forward on S + call on log S), product on LogSpot with
+          controls on Spot (1x: forward on S; 2x: forward on log S + call on S), product on Mean with controls on Spot /
+          LogSpot (1x: forward on S; 2x: forward on S + forward on log S) - scalar and 2-vector strikes, notional {1, 2.5},
+          df 0.9, spot statistics on, N <= 5, all A3 sequences, and the sequences of representations (identity), (log),
+          (identity, log), (log, identity), (log, log): the SAME product / ControlVariates objects are priced by successive
+          fresh engines, so that a control's value function captured at the wrong moment (before or without
+          Underlying.update) is seen in the stored control rows, which are compared with the control payoffs of the SPOT path.
           quick = the full lattice for N <= 5 on A3 (and LOG for N <= 3), A4 for N <= 3 in full and N = 5 on the sub-lattice
           notional 2.5 / df 0.9 / spot on, N = 8 on that sub-lattice for payoff s, v2 and controls none, 1a, 2a;
           thorough = everything (N = 8 and A4 with N = 5 on the full lattice).
@@ -90,6 +98,9 @@ BLOCK = 729
 WELL = 1e-3
 DEFICIENT = 1e-9
 
+MIXED_PAYOFFS = ("s", "v2", "ls", "lv2", "m", "mv2")  # product on Spot / LogSpot / Mean
+MIXED_REPS = (("identity",), ("log",), ("identity", "log"), ("log", "identity"), ("log", "log"))
+
 
 # ----------------------------------------------------------------------------------------------------------------------
 # the space
@@ -132,6 +143,15 @@ def cases(tier):
                 continue
             for lo, hi in _blocks(n, 4):
                 out.append(dict(c, sub="sweep", alphabet="A4", rep="identity", N=n, lo=lo, hi=hi))
+    # controls on an underlying type different from the product's (both directions), both representations, and the same
+    # product / controls objects priced a second time by a second engine (after a first pricing in either representation)
+    for n in (1, 2, 3, 5):
+        for payoff in MIXED_PAYOFFS:
+            for cv in U.CROSS_CV_KINDS:
+                for notional in (1.0, 2.5):
+                    for reps in MIXED_REPS:
+                        out.append({"sub": "mixed", "payoff": payoff, "cv": cv, "notional": notional, "df": 0.9, "spot": 1,
+                                    "alphabet": "A3", "reps": list(reps), "N": n, "lo": 0, "hi": 3 ** n})
     for c in confs:
         if not thorough and not (sub_lattice(c) and c["payoff"] in ("s", "v2") and c["cv"] in ("none", "1a", "2a")):
             continue
@@ -163,9 +183,10 @@ def _cls_letters(letters):
     return "constant-sample" if k == 1 else f"{k}-letter-sample"
 
 
-def run_engine(case, letters):
-    """One complete run of the real engine on fresh objects. Returns a dict of observations (or the exception)."""
-    eng, proc, product = U.build_engine(case, letters)
+def run_engine(case, letters, objects=None):
+    """One complete run of the real engine (fresh engine, configuration and process; fresh product / controls unless
+    `objects` are handed in). Returns a dict of observations (or the exception)."""
+    eng, proc, product = U.build_engine(case, letters, objects)
     obs = {"exc": None}
     try:
         with np.errstate(all="ignore"), warnings.catch_warnings():
@@ -201,10 +222,12 @@ def _obs_fingerprint(obs):
 def check_run(sh, case, letters, obs):
     n = len(letters)
     d = U.payoff_dim(case["payoff"])
-    dimk = _dimk(d)
     cvk = case["cv"]
+    # labels used in the violation keys: the sub "mixed" adds payoff kind, representation and position of the pricing
+    dimk = case.get("dimlab", _dimk(d))
+    cvlab = case.get("cvlab", cvk)
     nt, df = case["notional"], case["df"]
-    spec = U.control_spec(cvk, d)
+    spec = U.control_spec(cvk, d, case["payoff"])
     ncv = len(spec)
     S, Y, X = U.reference_rows(case, letters)
     detail0 = {"letters": list(letters), "config": {k: case[k] for k in ("payoff", "cv", "notional", "df", "spot", "rep", "alphabet")}}
@@ -216,7 +239,7 @@ def check_run(sh, case, letters, obs):
 
     if obs["exc"] is not None:
         e = obs["exc"]
-        sh.violation(f"C07:engine:price-raises:{type(e).__name__}:{cvk}:{dimk}",
+        sh.violation(f"C07:engine:price-raises:{type(e).__name__}:{cvlab}:{dimk}",
                      f"Engine.price raised {type(e).__name__}: {e} for N={n}, payoff {case['payoff']}, controls {cvk}",
                      detail0)
         sh.outcome(("raises", type(e).__name__, cvk, dimk))
@@ -258,10 +281,10 @@ def check_run(sh, case, letters, obs):
     if ncv and Xl is not None:
         Xr = np.array(X, dtype=float).reshape(n, ncv, d)
         if Xl.shape != Xr.shape:
-            sh.violation(f"C07:rows:control:shape:{cvk}:{dimk}", f"stored control array has shape {Xl.shape}, expected {Xr.shape}", detail0)
+            sh.violation(f"C07:rows:control:shape:{cvlab}:{dimk}", f"stored control array has shape {Xl.shape}, expected {Xr.shape}", detail0)
         elif not np.allclose(Xl, Xr, rtol=1e-12, atol=1e-14 * scale):
             bad = [int(v) for v in np.argwhere(~np.isclose(Xl, Xr, rtol=1e-12, atol=1e-14 * scale))[0]]
-            sh.violation(f"C07:rows:control:row-differs-from-path-payoff:{cvk}:{dimk}",
+            sh.violation(f"C07:rows:control:row-differs-from-path-payoff:{cvlab}:{dimk}",
                          f"stored control row {bad[0]} control {bad[1]} component {bad[2]} = {Xl[tuple(bad)]!r}, reference {Xr[tuple(bad)]!r}",
                          dict(detail0, stored=Xl.tolist(), reference=Xr.tolist()))
     if case["spot"]:
@@ -321,10 +344,10 @@ def check_run(sh, case, letters, obs):
         return True
 
     # ---- control variates, per payoff component
-    P = U.control_prices(cvk, d, nt, df)
+    P = U.control_prices(cvk, d, nt, df, case["payoff"])
     Al = obs["A"]
     if Al is not None and Al.shape != (n, d):
-        sh.violation(f"C07:cv:rows:shape:{cvk}:{dimk}", f"adjusted payoff array has shape {Al.shape}, expected {(n, d)}", detail0)
+        sh.violation(f"C07:cv:rows:shape:{cvlab}:{dimk}", f"adjusted payoff array has shape {Al.shape}, expected {(n, d)}", detail0)
         Al = None
     if Al is None:
         sh.count("adjusted_rows_unobservable")
@@ -387,7 +410,7 @@ def check_run(sh, case, letters, obs):
                         kind = "controls-dropped"
                 what = (f"price()[{c}] = {obs['price'][c]!r} but mean of Y - b*(X - price_X) = {price_ref!r}" if not price_ok else
                         f"adjusted rows of component {c} = {a_lib.tolist()} but Y - b*(X - price_X) = {a_ref.tolist()}")
-                sh.violation(f"C07:cv:adjustment:not-the-regression-adjustment:{kind}:{cvk}:{dimk}",
+                sh.violation(f"C07:cv:adjustment:not-the-regression-adjustment:{kind}:{cvlab}:{dimk}",
                              what + f" with b* = {b_ref.tolist()} (raw mean {mean_ref[c]!r}, given prices {p.tolist()}, control means {xm.tolist()})",
                              dict(det, adjusted_rows_library=None if a_lib is None else a_lib.tolist(), adjusted_rows_reference=a_ref.tolist()))
             elif n >= 2:
@@ -415,11 +438,11 @@ def check_run(sh, case, letters, obs):
                     res = diff - M @ b_any
                     ok_form = bool(np.max(np.abs(res)) <= 1e-9 * sc)
                 if not ok_form:
-                    sh.violation(f"C07:cv:rows:adjusted-rows-not-a-control-variate-adjustment:rank-deficient-controls:{cvk}:{dimk}",
+                    sh.violation(f"C07:cv:rows:adjusted-rows-not-a-control-variate-adjustment:rank-deficient-controls:{cvlab}:{dimk}",
                                  f"adjusted rows of component {c} = {a_lib.tolist()} are not Y - b(X - price_X) for any b", det)
                 # price and error are the mean / standard error of those rows
                 if ok_form and not core.close(obs["price"][c], U.fmean(list(a_lib)), rtol=1e-9, atol=1e-12 * sc, scale=sc):
-                    sh.violation(f"C07:cv:price:not-the-mean-of-the-adjusted-rows:rank-deficient-controls:{cvk}:{dimk}",
+                    sh.violation(f"C07:cv:price:not-the-mean-of-the-adjusted-rows:rank-deficient-controls:{cvlab}:{dimk}",
                                  f"price()[{c}] = {obs['price'][c]!r}, mean of the adjusted rows = {U.fmean(list(a_lib))!r}", det)
                 if ok_form and n >= 2:
                     se_rows = U.fstd_err(list(a_lib))
@@ -441,14 +464,14 @@ def check_run(sh, case, letters, obs):
             slack = 1e-10 * max(sc, scale) ** 2
             sh.count("variance_inequalities")
             if not (var_adj <= var_raw + slack):
-                sh.violation(f"C07:cv:variance:adjusted-sample-variance-exceeds-raw:{cond}:{cvk}:{dimk}",
+                sh.violation(f"C07:cv:variance:adjusted-sample-variance-exceeds-raw:{cond}:{cvlab}:{dimk}",
                              f"component {c}: sample variance of the adjusted payoff {var_adj!r} > raw {var_raw!r}",
                              dict(det, adjusted_rows=None if a_lib is None else a_lib.tolist()))
         if mean_hit and main_ok:
             sh.count("control_mean_equals_given_price")
             tol = 1e-9 * max(sc, scale)
             if not abs(obs["price"][c] - obs["raw_price"][c]) <= tol:
-                sh.violation(f"C07:cv:price:differs-from-raw-mean-although-control-mean-equals-given-price:{cond}:{cvk}:{dimk}",
+                sh.violation(f"C07:cv:price:differs-from-raw-mean-although-control-mean-equals-given-price:{cond}:{cvlab}:{dimk}",
                              f"component {c}: mean(X) = price_X = {p.tolist()} but price() = {obs['price'][c]!r} != raw mean {obs['raw_price'][c]!r}", det)
         sh.outcome((cvk, dimk, cond, _cls_letters(letters), mean_hit, n,
                     "reduced" if (n >= 2 and var_raw > 0 and abs(obs["price"][c] - obs["raw_price"][c]) > 1e-12 * scale) else "unchanged"))
@@ -456,6 +479,27 @@ def check_run(sh, case, letters, obs):
 
 
 # ----------------------------------------------------------------------------------------------------------------------
+
+def _pricings(case):
+    """The successive pricings of one sequence: list of per-pricing case dicts (representation + key labels)."""
+    if case["sub"] != "mixed":
+        return [case]
+    out = []
+    reps = case["reps"]
+    for k, rep in enumerate(reps):
+        pos = "first-pricing" if k == 0 else f"second-pricing-after-{reps[k - 1]}"
+        lab = f"{case['payoff']}:{rep}:{pos}"
+        out.append(dict(case, rep=rep, cvlab=f"{case['cv']}:{lab}", dimlab=f"{_dimk(U.payoff_dim(case['payoff']))}:{lab}"))
+    return out
+
+
+def run_sequence(case, letters):
+    """All pricings of one sequence of terminal values. Sub 'mixed': the SAME product and ControlVariates objects are priced
+    by successive fresh engines, each with a fresh scripted process in the stated representation."""
+    pr = _pricings(case)
+    objects = U.make_objects(case) if case["sub"] == "mixed" else None
+    return [(c, run_engine(c, letters, objects)) for c in pr]
+
 
 def check_case(sh, case):
     U.quiet()
@@ -467,17 +511,21 @@ def check_case(sh, case):
         seq = U.decode(idx, n, len(letters_all))
         letters = [letters_all[k] for k in seq]
         sh.case = dict(block, lo=idx, hi=idx + 1)  # a violation is recorded with its own sequence only (minimal replay)
-        obs = run_engine(case, letters)
-        check_run(sh, case, letters, obs)
+        runs = run_sequence(case, letters)
+        for c, obs in runs:
+            check_run(sh, c, letters, obs)
+            if case["sub"] == "mixed":
+                sh.cls(f"mixed:{U.PAYOFF_UNDERLYING[case['payoff']]}-product:{c['rep']}:{'first' if c['cvlab'].endswith('first-pricing') else 'second'}-pricing")
         if len(set(letters)) > 1:
             nontrivial = True
         if idx == case["lo"]:
             # determinism self-check: same case on fresh objects gives the same complete observation, bit for bit
-            again = run_engine(case, letters)
-            if _obs_fingerprint(again) != _obs_fingerprint(obs):
+            again = run_sequence(case, letters)
+            if [_obs_fingerprint(o) for _, o in again] != [_obs_fingerprint(o) for _, o in runs]:
                 sh.violation("NONDETERMINISM", f"two runs of {sh.case} differ", None)
             sh.count("determinism_rechecks")
-        if idx == 5 and n in (3, 5) and case["payoff"] == "v2" and case["notional"] == 2.5 and case["df"] == 0.9:
+        obs = runs[-1][1]
+        if idx == 5 and n in (3, 5) and case["payoff"] in ("v2", "lv2") and case["notional"] == 2.5 and case["df"] == 0.9:
             # a written-out example for the evidence: the sequence (..., 0.5, 1, 1.5) of this configuration
             sh.sample({"case": sh.case, "letters": letters,
                        "observed": {"raw_price": obs.get("raw_price"), "price": obs.get("price"),
